@@ -107,6 +107,8 @@ fn fault_kind() -> impl Strategy<Value = Fault> {
     prop_oneof![
         3 => Just(Fault::WriteFail),
         3 => (0u16..120).prop_map(Fault::Partial),
+        2 => (1u16..120).prop_map(Fault::PartialIo),
+        1 => (1u16..120).prop_map(Fault::PartialDiskFull),
         3 => Just(Fault::FsyncFail),
         1 => (0u16..4).prop_map(Fault::DiskFull),
     ]
@@ -658,7 +660,17 @@ fn kinds_for(rec: &Rec) -> Vec<Fault> {
     match rec.op {
         Op::Append => {
             let n = rec.requested as u16;
-            let mut v = vec![Fault::WriteFail, Fault::Partial(1), Fault::Partial(n / 2), Fault::Partial(n.saturating_sub(1)), Fault::DiskFull(1), Fault::DiskFull(0)];
+            let mut v = vec![
+                Fault::WriteFail,
+                Fault::Partial(1),
+                Fault::Partial(n / 2),
+                Fault::Partial(n.saturating_sub(1)),
+                Fault::PartialIo(1),
+                Fault::PartialIo(n / 2),
+                Fault::PartialDiskFull(n.saturating_sub(1)),
+                Fault::DiskFull(1),
+                Fault::DiskFull(0),
+            ];
             v.dedup();
             v
         }
